@@ -370,6 +370,28 @@ def analyse_function(ctx, repo, rel, func, seed, done, is_setup=False):
                    f"carries on, closes the file and renames an incomplete "
                    f"result to the output path", node=h,
                    label=f"write errors propagate {short(wcalls[0], 40)}")
+    # (e') a context manager that swallows exceptions (contextlib.suppress)
+    # around a writer has the same effect as a swallowing handler: the
+    # interrupted write is followed by the rename
+    for wn in [n for n in walk(func) if isinstance(n, (ast.With,
+                                                       ast.AsyncWith))]:
+        sup = [it.context_expr for it in wn.items
+               if isinstance(it.context_expr, ast.Call) and (call_name(
+                   it.context_expr) or "").split(".")[-1] == "suppress"]
+        if not sup:
+            continue
+        inner = [c for c in writes if any(
+            c is x for it in wn.items for x in walk(it.context_expr))
+            or any(c is x for st_ in wn.body for x in walk(st_))]
+        uses = any(isinstance(x, ast.Name) and x.id in writer_vars
+                   for st_ in wn.body for x in walk(st_))
+        if inner or uses:
+            ctx.ob("R10.6", False,
+                   f"`{short(sup[0], 50)}` swallows exceptions raised while "
+                   "the temporary file is written: the task carries on, the "
+                   "writer finalises and the incomplete result is renamed "
+                   "to the output path", node=sup[0],
+                   label=f"no suppress around writers {short(sup[0], 30)}")
     # (d) from every write sink every normal path reaches a rename
     ren_stmts = {id(_stmt_of(r)) for r in renames}
 
@@ -901,7 +923,7 @@ def check_setup(ctx, repo):
     outs = ["/d/out.rtdc", "/d/out", "/d/link.rtdc", "/d/link2.rtdc",
             "/d/sub/../in.rtdc", "/d/in.rtdc", "/d/in", "/d/in2",
             "/d/tlink.rtdc", "/d/e/out.rtdc", "/d/olink.rtdc",
-            "/d/out.v2.rtdc"]
+            "/d/out.v2.rtdc", "/d/OUT.RTDC"]
     stale = [(), ("out",), ("temp",), ("out", "temp")]
     n = 0
 
